@@ -61,3 +61,10 @@ Definition timeline (mixers_present : bool) (ans : N -> option nat) (retries : n
          then fold_left Nat.max (map (fun s => Nat.pred (k_time s)) ks) 0%nat else retries)
         (map (fun s => (k_code s, k_tx s)) ks)
         (map k_code (filter k_avail ks)).
+
+(* A further set-up of the SAME device object: request() returns as soon as the data it asks for are available, so a kind whose
+   data an earlier run obtained is served at once (one transmission, no waiting), whatever the controller answers now. *)
+Definition effective (have : list N) (ans : N -> option nat) : N -> option nat :=
+  fun k => if memN k have then Some 1%nat else ans k.
+Definition timeline_again (mixers_present : bool) (first ans : N -> option nat) (retries : nat) : setup_result :=
+  timeline mixers_present (effective (r_data (timeline mixers_present first retries)) ans) retries.
